@@ -37,6 +37,8 @@ type Case struct {
 	ViaConf bool
 	// Parallel: number of Sign calls issued at the same time on the one Signer (0 or 1 = a single call)
 	Parallel int
+	// More: further Sign calls made one after another on the same Signer once the first is judged
+	More int `json:",omitempty"`
 }
 
 func gen(t *rapid.T) Case {
@@ -47,6 +49,7 @@ func gen(t *rapid.T) Case {
 	c.ClientChain = rapid.Bool().Draw(t, "clientChain")
 	c.ViaConf = rapid.Bool().Draw(t, "viaConf")
 	c.Parallel = rapid.SampledFrom([]int{1, 1, 2, 3, 4}).Draw(t, "parallel")
+	c.More = rapid.SampledFrom([]int{0, 0, 0, 0, 3, 12, 50}).Draw(t, "more")
 	n := rapid.SampledFrom([]int{1, 1, 2, 2, 3, 3, 3, 4, 6, 8}).Draw(t, "n")
 	for i := 0; i < n; i++ {
 		l := fmt.Sprintf("e%d", i)
@@ -240,10 +243,27 @@ func exec(c Case) (vh.Outcome, error) {
 			return out, vh.Errf("%s: the server asked for a client certificate (%s) but did not get the configured one (%d presented)", desc, ca, len(calls[0].PeerCerts))
 		}
 	}
+	// the Signer is a long-lived object: further calls on it, one after another, end the same way
+	if c.More > 0 && impostors > 0 {
+		out.Classes = append(out.Classes, "further-calls-on-the-same-signer")
+		for k := 0; k < c.More; k++ {
+			var mc []ssh.PublicKey
+			var merr error
+			mctx, mcancel := context.WithTimeout(context.Background(), 30*time.Second)
+			perr := vh.Catch(func() { mc, _, merr = signer.Sign(mctx, proto.Clone(req).(*pb.SSHCertificateSigningRequest)) })
+			mcancel()
+			if perr != nil {
+				return out, vh.Errf("%s: further call %d crashed: %v", desc, k+1, perr)
+			}
+			if merr != nil || len(mc) != 1 || !bytes.Equal(mc[0].Marshal(), epCert(first).Marshal()) {
+				return out, vh.Errf("%s: the first call went through genuine endpoint %d, but further call %d on the same Signer (after %d failed attempts at impostors) returned %d certificates, %v", desc, first, k+1, (k+1)*impostors, len(mc), merr)
+			}
+		}
+	}
 	return out, nil
 }
 
-const rule = "CA bundles of one or two files (single CA, the other CA, both as separate files, both in one file, a file listed twice, a CA together with its successor under the same subject name and another key - in two files in either order or in one file) and, 4 in 13, degenerate ones (no file at all, empty paths, an empty path next to a real file: either refused as configuration, or no CA beyond the readable files is trusted); the 'foreign' CA is installed as this process's host trust store (SSL_CERT_FILE), i.e. it stands for a publicly trusted CA that is not configured; 1..8 endpoints on loopback aliases (the caller's context carries a 30 s deadline), each a real gRPC-over-TLS server with identity {issued by configured CA A / CA B / CA A's same-named successor with matching IP SAN, by a foreign CA, self-signed, expired a day ago / 20 s ago, not yet valid, valid since 20 s only (genuine), valid for another address, issued by the CA of the RA's own client certificate} x protocol range {TLS 1.0-1.1 only, 1.2 only, 1.3 only, any} x client-certificate policy {none, request, require+verify, request while naming another CA, verify-if-given against the right / another client CA}; the signer is built from the struct or from the 'signer' map of a gensign configuration; the client certificate file holds the leaf alone or the leaf followed by its issuing CA; 1..4 Sign calls issued at the same moment on the one Signer, each judged like a single call; every server would sign (each with its own certificate, so the answering server is identifiable). Oracle: Sign succeeds iff some endpoint is genuine (issued by a CA of the bundle, right address, valid now, speaks >= TLS 1.2) and the answer is the first such endpoint's; impostors never receive the RPC; negotiated version >= 1.2; when the server asked, the peer certificate is byte-identical to the configured client certificate. Non-trivial: at least one impostor in the list."
+const rule = "CA bundles of one or two files (single CA, the other CA, both as separate files, both in one file, a file listed twice, a CA together with its successor under the same subject name and another key - in two files in either order or in one file) and, 4 in 13, degenerate ones (no file at all, empty paths, an empty path next to a real file: either refused as configuration, or no CA beyond the readable files is trusted); the 'foreign' CA is installed as this process's host trust store (SSL_CERT_FILE), i.e. it stands for a publicly trusted CA that is not configured; 1..8 endpoints on loopback aliases (the caller's context carries a 30 s deadline), each a real gRPC-over-TLS server with identity {issued by configured CA A / CA B / CA A's same-named successor with matching IP SAN, by a foreign CA, self-signed, expired a day ago / 20 s ago, not yet valid, valid since 20 s only (genuine), valid for another address, issued by the CA of the RA's own client certificate} x protocol range {TLS 1.0-1.1 only, 1.2 only, 1.3 only, any} x client-certificate policy {none, request, require+verify, request while naming another CA, verify-if-given against the right / another client CA}; the signer is built from the struct or from the 'signer' map of a gensign configuration; the client certificate file holds the leaf alone or the leaf followed by its issuing CA; 1..4 Sign calls issued at the same moment on the one Signer, each judged like a single call, in three cases of seven followed by 3 / 12 / 50 further calls one after another (a Signer lives as long as the process); every server would sign (each with its own certificate, so the answering server is identifiable). Oracle: Sign succeeds iff some endpoint is genuine (issued by a CA of the bundle, right address, valid now, speaks >= TLS 1.2) and the answer is the first such endpoint's; impostors never receive the RPC; negotiated version >= 1.2; when the server asked, the peer certificate is byte-identical to the configured client certificate. Non-trivial: at least one impostor in the list."
 
 func TestC18TLS(t *testing.T) {
 	vh.Run(t, vh.Spec[Case]{Property: "C18", Name: "TestC18TLS", Rule: rule, Gen: gen, Exec: exec})
